@@ -675,13 +675,16 @@ def rule_unit_merge(ck, facts, R):
     n_none = sum(1 for g in mg for _, st in g.all_stmts() if st[KIND] == "a" and st[5][0] == "agg" and st[5][1][0] == "adt" and st[5][1][1].endswith("mir::Value") and st[5][1][3] == "None")
     ck.floor(R, "mirgen_none_values", n_none, 5)
     fam = facts.family(roles.LANG, bl.fn.root)
+    # the register-table look-ups by signature: methods of the generator `fn(self, &Arc<mir::Value>) -> Reg`
+    st_ = (bl.fn.d.get("self_ty") or "").strip()
+    lookups = {g.path for g in lang.fns if g.kind == "assoc" and st_ and (g.d.get("self_ty") or "").strip() == st_ and g.d.get("argc") == 2 and "mir::Value" in g.local_ty(2) and g.local_ty(0) in ("u8", "u16", "u32")}
     n = 0
     for g in fam:
         di = DefIndex(g)
         sites = []
         for b, t in g.calls():
             c = callee(t) or ""
-            if not (c.endswith("ByteCodeGenerator::find") or c.endswith("ByteCodeGenerator::find_keep")) or len(t[5]) < 2:
+            if c not in lookups or len(t[5]) < 2:
                 continue
             of = _origin_field(di, t[5][1])
             is_phi = bool(of and ("Instruction::Phi::" in of))
